@@ -214,68 +214,99 @@ def run_obligations(obligs, jobs=None):
         for i in range(len(obligs)):
             _, results[i] = _run_one(i)
         return results
-    # One forked child per obligation, killed by the parent when it overruns its wall-clock budget: a solver call that ignores
-    # its own timeout (z3 inside a quantifier-instantiation round does not return to the interpreter, so SIGALRM handlers never
-    # run) can then neither hang the check nor starve the other obligations.  A killed obligation is UNDECIDED, never a violation.
+    # Persistent forked workers (forked before any obligation runs, so they inherit no solver timer threads), one obligation at
+    # a time each; the parent watches the wall clock and KILLS a worker whose obligation overruns its budget -- a solver call that
+    # ignores its own timeout can then neither hang the check nor starve the other obligations.  The killed obligation is
+    # UNDECIDED (never a violation) and a fresh worker is forked in its place.
     ctx = mp.get_context("fork")
     grace = 20
-    pending = list(range(len(obligs)))
-    # longest budgets first, so that the tail of the run is not one slow obligation on an otherwise idle machine
-    pending.sort(key=lambda i: -(obligs[i].timeout or 0))
-    running = {}                # i -> (process, parent_conn, start time)
+    pending = sorted(range(len(obligs)), key=lambda i: -(obligs[i].timeout or 0))   # longest budgets first
 
-    def _child(i, conn):
+    def _worker(task_r, res_w):
         try:
-            conn.send(_run_one(i))
-        except Exception:  # pylint: disable=broad-except
-            try:
-                conn.send((i, Outcome(FAULT, detail=traceback.format_exc()[-3000:]).as_dict()))
-            except Exception:  # pylint: disable=broad-except
-                pass
+            while True:
+                i = task_r.recv()
+                if i is None:
+                    break
+                try:
+                    res_w.send(_run_one(i))
+                except Exception:  # pylint: disable=broad-except
+                    res_w.send((i, jsonable_deep(Outcome(FAULT, detail=traceback.format_exc()[-3000:]).as_dict())))
+        except (EOFError, OSError, KeyboardInterrupt):
+            pass
         finally:
-            conn.close()
             os._exit(0)
 
-    while pending or running:
-        while pending and len(running) < jobs:
-            i = pending.pop(0)
-            pc, cc = ctx.Pipe(duplex=False)
-            p = ctx.Process(target=_child, args=(i, cc), daemon=True)
-            p.start()
-            cc.close()
-            running[i] = (p, pc, time.time())
-        done = []
-        for i, (p, pc, t0) in running.items():
+    class _W:
+        def __init__(self):
+            self.task_r, self.task_w = ctx.Pipe(duplex=False)
+            self.res_r, self.res_w = ctx.Pipe(duplex=False)
+            self.p = ctx.Process(target=_worker, args=(self.task_r, self.res_w), daemon=True)
+            self.p.start()
+            self.task_r.close()
+            self.res_w.close()
+            self.cur, self.t0 = None, 0.0
+
+        def give(self, i):
+            self.cur, self.t0 = i, time.time()
+            self.task_w.send(i)
+
+        def close(self, kill=False):
+            try:
+                if kill:
+                    self.p.kill()
+                else:
+                    self.task_w.send(None)
+            except (OSError, ValueError):
+                pass
+            self.p.join(timeout=0.5 if not kill else 2)
+            if self.p.is_alive():
+                self.p.kill()
+            for c in (self.task_w, self.res_r):
+                try:
+                    c.close()
+                except OSError:
+                    pass
+
+    workers = [_W() for _ in range(min(jobs, len(obligs)))]
+    n_done = 0
+    while n_done < len(obligs):
+        progressed = False
+        for k, wk in enumerate(workers):
+            if wk.cur is None:
+                if pending:
+                    wk.give(pending.pop(0))
+                    progressed = True
+                continue
             got = None
             try:
-                if pc.poll(0):
-                    got = pc.recv()
+                if wk.res_r.poll(0):
+                    got = wk.res_r.recv()
             except (EOFError, OSError):
-                got = (i, jsonable_deep(Outcome(FAULT, detail="obligation process died without a result (killed / out of memory?)").as_dict()))
-            if got is None and not p.is_alive():
-                try:
-                    got = pc.recv() if pc.poll(0.2) else None
-                except (EOFError, OSError):
-                    got = None
-                if got is None:
-                    got = (i, jsonable_deep(Outcome(FAULT, detail=f"obligation process exited with code {p.exitcode} and no result").as_dict()))
-            to = obligs[i].timeout
-            if got is None and to and time.time() - t0 > to + grace:
-                p.kill()
+                got = (wk.cur, jsonable_deep(Outcome(FAULT, detail="obligation process died without a result (killed / out of memory?)").as_dict()))
+                wk.close(kill=True)
+                workers[k] = _W()
+            if got is None and not wk.p.is_alive():
+                got = (wk.cur, jsonable_deep(Outcome(FAULT, detail=f"obligation process exited with code {wk.p.exitcode} and no result").as_dict()))
+                wk.close(kill=True)
+                workers[k] = _W()
+            to = obligs[wk.cur].timeout if wk.cur is not None else None
+            if got is None and to and time.time() - wk.t0 > to + grace:
                 d = Outcome(UNDECIDED, backend="timeout", detail=f"wall-clock budget {to}s exhausted (process killed: the solver did not return)").as_dict()
-                d["seconds"] = round(time.time() - t0, 2)
-                got = (i, jsonable_deep(d))
+                d["seconds"] = round(time.time() - wk.t0, 2)
+                got = (wk.cur, jsonable_deep(d))
+                wk.close(kill=True)
+                workers[k] = _W()
             if got is not None:
-                results[i] = got[1]
-                done.append(i)
-        for i in done:
-            p, pc, _ = running.pop(i)
-            p.join(timeout=1)
-            if p.is_alive():
-                p.kill()
-            pc.close()
-        if not done:
-            time.sleep(0.02)
+                results[got[0]] = got[1]
+                n_done += 1
+                progressed = True
+                if workers[k] is wk:
+                    wk.cur = None
+        if not progressed:
+            time.sleep(0.005)
+    for wk in workers:
+        wk.close()
     return results
 
 
